@@ -23,6 +23,7 @@ impl<'a> AliasLexer<'a> {
 
     fn trim_whitespace(&mut self) {
         while self.has_more_chars() && self.source[0].is_whitespace() {
+            #[cfg(feature = "verif")] crate::verif::tick(91);
             self.advance();
         }
     }
@@ -37,6 +38,7 @@ impl<'a> AliasLexer<'a> {
     fn chop_while<P>(&mut self, mut predicate: P) -> String where P: FnMut(&char) -> bool {
         let mut n = 0;
         while n < self.source.len() && predicate(&self.source[n]) {
+            #[cfg(feature = "verif")] crate::verif::tick(92);
             n += 1;
         }
         self.chop(n)
@@ -177,6 +179,7 @@ impl<'a> AliasLexer<'a> {
         let mut buffer = String::new();
 
         while self.curr_char().is_ascii_alphabetic() || self.curr_char() == '.' {
+            #[cfg(feature = "verif")] crate::verif::tick(93);
             buffer.push(self.curr_char());
             self.advance();
             self.trim_whitespace();
@@ -300,6 +303,7 @@ impl<'a> AliasLexer<'a> {
         if CARDINALS_TRIE.contains_prefix(buffer.as_str()) {
             self.advance();
             loop {
+                #[cfg(feature = "verif")] crate::verif::tick(94);
                 let mut tmp = buffer.clone(); 
                 tmp.push(self.cur_as_ipa());
                 if CARDINALS_TRIE.contains_prefix(tmp.as_str()) {
@@ -472,6 +476,7 @@ impl<'a> AliasLexer<'a> {
         let err_pos = self.pos;
         let mut buf = String::new();
         while self.curr_char().is_ascii_alphabetic() {
+            #[cfg(feature = "verif")] crate::verif::tick(95);
             buf.push(self.curr_char());
             self.advance();
             self.trim_whitespace();
@@ -507,6 +512,7 @@ impl<'a> AliasLexer<'a> {
         let mut buffer = String::with_capacity(1);
 
         while self.has_more_chars() {
+            #[cfg(feature = "verif")] crate::verif::tick(96);
             if Self::is_valid_char(&self.curr_char()) {
                 buffer.push(self.curr_char());
                 self.advance();
@@ -567,6 +573,7 @@ impl<'a> AliasLexer<'a> {
     pub(crate) fn get_line(&mut self) -> Result<Vec<AliasToken>, AliasSyntaxError> {
         let mut token_list: Vec<AliasToken> =  Vec::new();
         loop {
+            #[cfg(feature = "verif")] crate::verif::tick(97);
             let next_token = self.get_next_token()?;
             if let AliasTokenKind::Eol = next_token.kind {
                 token_list.push(next_token);
